@@ -50,6 +50,10 @@ func callExpr(kind, v string) string {
 	panic(kind)
 }
 
+// leafLevel is the inline level that only holds calls without a block.
+var leafLevel = 2
+var maxLevel = 2
+
 func body(level int, list, ind string) string {
 	v := fmt.Sprintf("t%d", level)
 	var sb strings.Builder
@@ -57,7 +61,7 @@ func body(level int, list, ind string) string {
 	fmt.Fprintf(&sb, "%s\tswitch %s.K {\n", ind, v)
 	for _, k := range allKinds {
 		plus := strings.HasSuffix(k, "+")
-		if level == 2 && plus {
+		if level == leafLevel && plus {
 			continue
 		}
 		fmt.Fprintf(&sb, "%s\tcase %q:\n", ind, k)
@@ -72,7 +76,7 @@ func body(level int, list, ind string) string {
 		default:
 			fmt.Fprintf(&sb, "%s@%s {\n", in, callExpr(k, v))
 			fmt.Fprintf(&sb, "%s\t<div k=\"b\" m={ %s.M }>\n", in, v)
-			if rendersBlock[k] && level < 2 {
+			if rendersBlock[k] && level < leafLevel && level+1 <= maxLevel {
 				sb.WriteString(body(level+1, v+".Kids", in+"\t\t"))
 			} else {
 				fmt.Fprintf(&sb, "%s\t\t@nodes(%s.Kids)\n", in, v)
@@ -255,6 +259,21 @@ func comps(as []T) []templ.Component {
 	return out
 }
 
+// limitWriter makes runaway recursion (a block that ends up rendering
+// itself) fail-stop with a write error instead of a fatal stack overflow.
+type limitWriter struct {
+	buf bytes.Buffer
+}
+
+var errLimit = fmt.Errorf("output limit exceeded (runaway recursion)")
+
+func (l *limitWriter) Write(p []byte) (int, error) {
+	if l.buf.Len()+len(p) > 64<<10 {
+		return 0, errLimit
+	}
+	return l.buf.Write(p)
+}
+
 type job struct {
 	ID   int ` + "`json:\"id\"`" + `
 	Tree []T ` + "`json:\"tree\"`" + `
@@ -267,7 +286,7 @@ type result struct {
 }
 
 func main() {
-	debug.SetMaxStack(64 << 20)
+	debug.SetMaxStack(512 << 20)
 	in := bufio.NewReaderSize(os.Stdin, 1<<20)
 	out := bufio.NewWriterSize(os.Stdout, 1<<20)
 	defer out.Flush()
@@ -282,7 +301,8 @@ func main() {
 			fmt.Fprintln(os.Stderr, "bad job:", err)
 			os.Exit(3)
 		}
-		var buf bytes.Buffer
+		var lw limitWriter
+		buf := &lw.buf
 		r := result{ID: j.ID}
 		func() {
 			defer func() {
@@ -290,7 +310,7 @@ func main() {
 					r.Err = fmt.Sprintf("panic: %v", p)
 				}
 			}()
-			if err := nodes(j.Tree).Render(context.Background(), &buf); err != nil {
+			if err := nodes(j.Tree).Render(context.Background(), &lw); err != nil {
 				r.Err = "error: " + err.Error()
 			}
 		}()
